@@ -105,3 +105,121 @@ Theorem C01_slice_kernel_matches_source : forall start stop step s p x m, 1 <= s
         ++ [ASet (set_n s (S (st_n s)) (Gen.KSlice.gen_slice_done (Z.of_nat (S (st_n s))) (option_map Z.of_nat stop)))]).
 Proof. exact bridge_slice_update. Qed.
 Print Assumptions C01_slice_kernel_matches_source.
+
+(* ---- generated by harness/mkprops_sync.py: begin ---- *)
+From SZ Require Sync.NodeSem2.
+Section G_sem_accumulate_full.
+Import SZ.Sync.NodeSem2.
+Theorem C01_sem_accumulate_full : forall (f : val -> val -> option val) (start : option val) (rs ws : bool) (s : nstate) (l : list arrival), fold_outs (KAccum f start rs ws) s l = scan_full f rs ws (st_acc s) l.
+Proof. exact (@sem_accumulate_full). Qed.
+End G_sem_accumulate_full.
+Print Assumptions C01_sem_accumulate_full.
+Section G_sem_sliding.
+Import SZ.Sync.NodeSem2.
+Theorem C01_sem_sliding : forall (n : nat) (partial : bool) (l : list arrival) (s : nstate) (pre : list arrival), 1 <= n -> sliding_inv n s pre -> fold_outs (KSliding n partial) s l = sliding_sem n partial pre l.
+Proof. exact (@sem_sliding). Qed.
+End G_sem_sliding.
+Print Assumptions C01_sem_sliding.
+Section G_sliding_sem_by_index.
+Import SZ.Sync.NodeSem2.
+Theorem C01_sliding_sem_by_index : forall (n : nat) (partial : bool) (l : list arrival), sliding_sem n partial [] l = flat_map (fun i : nat => if partial || (n <=? S i) then [chunk_out (lastn n (firstn (S i) l))] else []) (seq 0 (length l)).
+Proof. exact (@sliding_sem_by_index). Qed.
+End G_sliding_sem_by_index.
+Print Assumptions C01_sliding_sem_by_index.
+Section G_sem_unique.
+Import SZ.Sync.NodeSem2.
+Theorem C01_sem_unique : forall (maxsize : option nat) (key : val -> val) (l : list arrival) (s : nstate) (pre : list arrival), unique_inv maxsize key s pre -> fold_outs (KUnique maxsize key) s l = unique_sem maxsize key pre l.
+Proof. exact (@sem_unique). Qed.
+End G_sem_unique.
+Print Assumptions C01_sem_unique.
+Section G_unique_unbounded.
+Import SZ.Sync.NodeSem2.
+Theorem C01_unique_unbounded : forall (maxsize : option nat) (key : val -> val) (pre l : list arrival), maxsize = None \/ maxsize = Some 0 -> unique_sem maxsize key pre l = prefix_sem (first_occ_step key) pre l.
+Proof. exact (@unique_unbounded). Qed.
+End G_unique_unbounded.
+Print Assumptions C01_unique_unbounded.
+Section G_unique_maxsize_1.
+Import SZ.Sync.NodeSem2.
+Theorem C01_unique_maxsize_1 : forall (key : val -> val) (pre l : list arrival), unique_sem (Some 1) key pre l = prefix_sem (dedup_adjacent_step key) pre l.
+Proof. exact (@unique_maxsize_1). Qed.
+End G_unique_maxsize_1.
+Print Assumptions C01_unique_maxsize_1.
+Section G_sem_collect.
+Import SZ.Sync.NodeSem2.
+Theorem C01_sem_collect : forall (s : nstate) (l : list arrival), fold_outs KCollect s l = [].
+Proof. exact (@sem_collect). Qed.
+End G_sem_collect.
+Print Assumptions C01_sem_collect.
+Section G_collect_flush.
+Import SZ.Sync.NodeSem2.
+Theorem C01_collect_flush : forall (s : nstate) (l : list arrival), st_win s = [] -> let s' := fold_state KCollect s l in outs (flush_actions s') = [chunk_out l] /\ st_win (final_state (flush_actions s') s') = [].
+Proof. exact (@collect_flush). Qed.
+End G_collect_flush.
+Print Assumptions C01_collect_flush.
+Section G_sem_combine_latest.
+Import SZ.Sync.NodeSem2.
+Theorem C01_sem_combine_latest : forall (arity : nat) (emit_on : option (list nat)) (l : list arrival) (s : nstate) (pre : list arrival), latest_inv arity s pre -> fold_outs (KCombineLatest emit_on) s l = combine_latest_sem arity emit_on pre l.
+Proof. exact (@sem_combine_latest). Qed.
+End G_sem_combine_latest.
+Print Assumptions C01_sem_combine_latest.
+Section G_sem_zip.
+Import SZ.Sync.NodeSem2.
+Theorem C01_sem_zip : forall (lits : list (nat * val)) (arity : nat) (l : list arrival), 1 <= arity -> Forall (fun a : arrival => aport a < arity) l -> fold_outs (KZip lits) (init_state (KZip lits) arity) l = zip_sem lits arity l /\ st_ports (fold_state (KZip lits) (init_state (KZip lits) arity) l) = map (fun p : nat => skipn (length (zip_sem lits arity l)) (col p l)) (seq 0 arity).
+Proof. exact (@sem_zip). Qed.
+End G_sem_zip.
+Print Assumptions C01_sem_zip.
+Section G_sem_zip2.
+Import SZ.Sync.NodeSem2.
+Theorem C01_sem_zip2 : forall l : list arrival, Forall (fun a : arrival => aport a < 2) l -> fold_outs (KZip []) (init_state (KZip []) 2) l = map (fun ab : arrival * arrival => (VTup [aval (fst ab); aval (snd ab)], amd (fst ab) ++ amd (snd ab))) (combine (on_port 0 l) (on_port 1 l)).
+Proof. exact (@sem_zip2). Qed.
+End G_sem_zip2.
+Print Assumptions C01_sem_zip2.
+Section G_zip_sem_transpose.
+Import SZ.Sync.NodeSem2.
+Theorem C01_zip_sem_transpose : forall (lits : list (nat * val)) (arity : nat) (l : list arrival), 1 <= arity -> zip_sem lits arity l = map (fun row : list (val * list mdi) => (VTup (pack_literals lits (map fst row) 0), flat_map snd row)) (zipn (cols arity l)).
+Proof. exact (@zip_sem_transpose). Qed.
+End G_zip_sem_transpose.
+Print Assumptions C01_zip_sem_transpose.
+Section G_sem_partition_key.
+Import SZ.Sync.NodeSem2.
+Theorem C01_sem_partition_key : forall (n : nat) (key : val -> val) (l : list arrival) (s : nstate) (pre : list arrival), 1 <= n -> partition_key_inv n key s pre -> fold_outs (KPartition n (Some key)) s l = partition_key_sem n key pre l.
+Proof. exact (@sem_partition_key). Qed.
+End G_sem_partition_key.
+Print Assumptions C01_sem_partition_key.
+Section G_partition_key_per_key.
+Import SZ.Sync.NodeSem2.
+Theorem C01_partition_key_per_key : forall (n : nat) (key : val -> val) (y : val), 1 <= n -> forall l pre : list arrival, prefix_sem (partition_key_step_for n key y) pre l = chunks n (pending n (same_key key y pre)) (same_key key y l).
+Proof. exact (@partition_key_per_key). Qed.
+End G_partition_key_per_key.
+Print Assumptions C01_partition_key_per_key.
+Section G_partition_key_nothing_lost.
+Import SZ.Sync.NodeSem2.
+Theorem C01_partition_key_nothing_lost : forall (n : nat) (key : val -> val) (y : val) (l : list arrival), 1 <= n -> exists rest : list arrival, length rest < n /\ flat_map (fun c : val * list mdi => match fst c with | VTup vs => vs | _ => [] end) (prefix_sem (partition_key_step_for n key y) [] l) ++ map aval rest = map aval (same_key key y l).
+Proof. exact (@partition_key_nothing_lost). Qed.
+End G_partition_key_nothing_lost.
+Print Assumptions C01_partition_key_nothing_lost.
+Section G_sem_part_unique.
+Import SZ.Sync.NodeSem2.
+Theorem C01_sem_part_unique : forall (n : nat) (key : val -> val) (kl : bool) (l : list arrival) (s : nstate) (buf : list arrival), pu_inv key s buf -> fold_outs (KPartUnique n key kl) s l = part_unique_sem n key kl buf l.
+Proof. exact (@sem_part_unique). Qed.
+End G_sem_part_unique.
+Print Assumptions C01_sem_part_unique.
+Section G_part_unique_distinct.
+Import SZ.Sync.NodeSem2.
+Theorem C01_part_unique_distinct : forall (n : nat) (key : val -> val) (kl : bool) (l buf : list arrival), NoDup (keys_of key buf) -> Forall (fun o : val * list mdi => exists c : list arrival, o = chunk_out c /\ length c = n /\ NoDup (keys_of key c)) (part_unique_sem n key kl buf l).
+Proof. exact (@part_unique_distinct). Qed.
+End G_part_unique_distinct.
+Print Assumptions C01_part_unique_distinct.
+Section G_sem_zip_latest.
+Import SZ.Sync.NodeSem2.
+Theorem C01_sem_zip_latest : forall (arity : nat) (l : list arrival) (s : nstate) (pre : list arrival), 1 <= arity -> zl_inv arity s pre -> fold_outs KZipLatest s l = zip_latest_sem arity pre l.
+Proof. exact (@sem_zip_latest). Qed.
+End G_sem_zip_latest.
+Print Assumptions C01_sem_zip_latest.
+Section G_zip_latest_lossless.
+Import SZ.Sync.NodeSem2.
+Theorem C01_zip_latest_lossless : forall arity : nat, 1 <= arity -> forall l pre : list arrival, map out_head (zip_latest_sem arity pre l) ++ map aval (zl_pending arity (pre ++ l)) = map aval (zl_pending arity pre) ++ map aval (on_port 0 l).
+Proof. exact (@zip_latest_lossless). Qed.
+End G_zip_latest_lossless.
+Print Assumptions C01_zip_latest_lossless.
+(* ---- generated by harness/mkprops_sync.py: end ---- *)
